@@ -87,6 +87,26 @@ MUTANTS = [
      "    if isinstance(model.type, Enum):\n        components.append(get_full_name_for_sql_enum(model.type))",
      "    if isinstance(model.type, Enum):\n        components.append(model.__dict__.setdefault('_enum_sql', get_full_name_for_sql_enum(model.type)))",
      "passes", "enum type name of a column memoised at first SQL render"),
+    # ---------------- C16
+    ("c16-inverted-attached-test", "C16", "pydbml/_classes/base.py",
+     "class DBMLObject:\n    \'\'\'Base class for all DBML objects.\'\'\'\n    @property\n    def dbml(self) -> str:\n        if hasattr(self, 'database') and self.database is not None:",
+     "class DBMLObject:\n    \'\'\'Base class for all DBML objects.\'\'\'\n    @property\n    def dbml(self) -> str:\n        if hasattr(self, 'database') and self.database is None:",
+     "passes", "DBML dispatch inverted"),
+    ("c16-column-database-none", "C16", "pydbml/_classes/column.py",
+     "        return self.table.database if self.table else None", "        return None", "passes",
+     "columns never see their database"),
+    ("c16-unsupported-raises", "C16", "pydbml/renderer/base.py",
+     "def unsupported_renderer(model) -> str:\n    return ''",
+     "def unsupported_renderer(model) -> str:\n    raise NotImplementedError(type(model))", "fails?",
+     "partial renderer fails instead of empty string"),
+    ("c16-registry-mutated-on-render", "C16", "pydbml/renderer/base.py",
+     "        return cls.model_renderers.get(type(model), cls._unsupported_renderer)(model)  # type: ignore",
+     "        return cls.model_renderers.setdefault(type(model), cls._unsupported_renderer)(model)  # type: ignore",
+     "passes", "render() registers the fallback handler (registry side effect)"),
+    ("c16-parser-drops-dbml-renderer", "C16", "pydbml/parser/parser.py",
+     "            sql_renderer=self._sql_renderer,\n            dbml_renderer=self._dbml_renderer,\n        )\n        for enum_bp",
+     "            sql_renderer=self._sql_renderer,\n        )\n        for enum_bp", "passes",
+     "dbml renderer passed to the parser is not forwarded to the Database"),
     # ---------------- C12
     ("c12-no-bom-parse-file", "C12", "pydbml/parser/parser.py",
      "                source = f.read()\n        source = remove_bom(source)\n        parser = PyDBMLParser(source)",
